@@ -245,3 +245,43 @@ def json_serializable(i: int, b: bool, s: str, kind: int) -> bool:
         return kind == 5
     V.reached()
     return kind != 5 and r == v and (kind < 3 or r is not v)
+
+
+# ---- registered custom observables: id from the declared id-contributing properties only
+def custom_observable(has_a: bool, has_b: bool, has_c: bool, falsy: bool) -> bool:
+    """
+    post: _
+    """
+    has_a, has_b, has_c, falsy = pickb(has_a), pickb(has_b), pickb(has_c), pickb(falsy)
+    with Native():
+        ok = run_custom_case(has_a, has_b, has_c, falsy)
+    V.reached()
+    return ok
+
+
+def run_custom_case(has_a, has_b, has_c, falsy):
+    from stix2 import registry
+    saved = dict(registry.STIX2_OBJ_MAPS["2.1"]["observables"])
+    try:
+        @stix2.v21.CustomObservable("x-probe-sco", [("a_val", stix2.properties.StringProperty()), ("b_num", stix2.properties.IntegerProperty()),
+                                                    ("c_other", stix2.properties.StringProperty())], ["a_val", "b_num"])
+        class Probe(object):
+            pass
+        kw, contrib = {}, {}
+        if has_a:
+            kw["a_val"] = contrib["a_val"] = "" if falsy else "é\"\n"
+        if has_b:
+            kw["b_num"] = contrib["b_num"] = 0 if falsy else 10 ** 21
+        if has_c:
+            kw["c_other"] = "zz"
+        if not kw:
+            kw["c_other"] = "only"
+        o = Probe(**kw)
+        o2 = stix2.parse(dict(kw, type="x-probe-sco"), version="2.1")
+        if contrib:
+            want = "x-probe-sco--%s" % uuid.uuid5(NS, indep_canon(contrib).replace(str(10 ** 21), "1e+21"))
+            return o.id == want and o2.id == want
+        return uuid.UUID(o.id[-36:]).version == 4 and o.id != o2.id
+    finally:
+        registry.STIX2_OBJ_MAPS["2.1"]["observables"].clear()
+        registry.STIX2_OBJ_MAPS["2.1"]["observables"].update(saved)
